@@ -18,8 +18,11 @@ Open Scope Z_scope.
 (* ------------------------------------------------------------------ dyadic numbers *)
 Record dy := Dy { dneg : bool; dmag : Z; dexp : Z }.
 
-Definition dnum (x : dy) : Z := dmag x * 2 ^ (Z.max (dexp x) 0).      (* |x| = dnum / dden *)
-Definition dden (x : dy) : Z := 2 ^ (Z.max (- dexp x) 0).
+(* 2^k for k >= 0, computed by a shift (Z.pow multiplies k times) *)
+Definition pow2 (k : Z) : Z := Z.shiftl 1 k.
+
+Definition dnum (x : dy) : Z := dmag x * pow2 (Z.max (dexp x) 0).      (* |x| = dnum / dden *)
+Definition dden (x : dy) : Z := pow2 (Z.max (- dexp x) 0).
 Definition snum (x : dy) : Z := if dneg x then - dnum x else dnum x.   (* x = snum / dden *)
 
 Definition dy_eqb (a b : dy) : bool :=
@@ -27,8 +30,7 @@ Definition dy_eqb (a b : dy) : bool :=
 
 (* n/d rounded to the nearest integer, ties to even (n >= 0, d > 0) *)
 Definition rnd_hev (n d : Z) : Z :=
-  let q := n / d in
-  let r := n mod d in
+  let (q, r) := Z.div_eucl n d in
   if 2 * r <? d then q else if d <? 2 * r then q + 1 else if Z.even q then q else q + 1.
 
 (* |x| * 10^p rounded half-even: the integer whose digits "%.pf" prints *)
@@ -41,7 +43,7 @@ Definition bitlen (m : Z) : Z := if m <=? 0 then 0 else Z.log2 m + 1.
    every use is guarded by |x| < 2^128 (field limits are far smaller) *)
 Definition rnd32 (x : dy) : dy :=
   let sh := Z.max (bitlen (dmag x) - 24) (-149 - dexp x) in
-  if sh <=? 0 then x else Dy (dneg x) (rnd_hev (dmag x) (2 ^ sh)) (dexp x + sh).
+  if sh <=? 0 then x else Dy (dneg x) (rnd_hev (dmag x) (pow2 sh)) (dexp x + sh).
 
 Definition dscale (k : Z) (x : dy) : dy := Dy (dneg x) (dmag x * k) (dexp x).
 
@@ -50,13 +52,13 @@ Definition f32_mul (k : Z) (x : dy) : dy := rnd32 (dscale k x).
 Definition to_file_unit (angstrom : bool) (x : dy) : dy := if angstrom then f32_mul ang_per_nm x else x.
 
 (* ------------------------------------------------------------------ decimal text *)
-Definition digit (d : Z) : ascii := ascii_of_nat (48 + Z.to_nat d).
+Definition digit (d : Z) : ascii := ascii_of_N (Z.to_N (48 + d)).
 
 (* the k least significant decimal digits of n, most significant first *)
 Fixpoint digs (k : nat) (n : Z) : list ascii :=
   match k with
   | O => []
-  | S k' => digs k' (n / 10) ++ [digit (n mod 10)]
+  | S k' => let (q, r) := Z.div_eucl n 10 in digs k' q ++ [digit r]
   end.
 
 Fixpoint ndigits_aux (fuel : nat) (n : Z) : nat :=
@@ -85,8 +87,8 @@ Definition field (w p : nat) (x : dy) : option (list ascii) :=
 
 (* ---- float(): the sub-language of decimal numbers mdtraj's writers emit ---- *)
 Definition is_digit (c : ascii) : bool :=
-  let n := nat_of_ascii c in ((48 <=? n) && (n <=? 57))%nat.
-Definition dval (c : ascii) : Z := Z.of_nat (nat_of_ascii c) - 48.
+  let n := N_of_ascii c in ((48 <=? n) && (n <=? 57))%N.
+Definition dval (c : ascii) : Z := Z.of_N (N_of_ascii c) - 48.
 
 Fixpoint take_digits (s : list ascii) (acc : Z) (cnt : nat) : Z * nat * list ascii :=
   match s with
